@@ -10,6 +10,7 @@ from harness import common as C
 from harness import gen, model, ref
 from harness.model import T
 from harness.props.c01 import compare_load, load_outcome
+from harness.props.c05 import plain_doc
 from harness.props import v1streams
 
 SETTINGS = {
@@ -20,7 +21,11 @@ SETTINGS = {
     'skip_if': [{'op': 'is', 'val': None}, {'op': '==', 'val': 0}],
     'raise_on_unknown_json_key': [True, False],
     'tag_key': ['kind', 'type'],
+    'auto_assign_tags': [True, False],
 }
+DUMP_KEYS = ['key_transform_with_dump', 'marshal_date_time_as', 'skip_defaults', 'skip_if', 'skip_defaults_if']
+LOAD_KEYS = ['key_transform_with_load', 'raise_on_unknown_json_key']
+BOTH_KEYS = ['tag_key', 'auto_assign_tags', 'tag', 'recursive']
 SHAPES = ['direct', 'optional', 'list', 'dictval', 'tuple', 'two-levels', 'list-of-optional']
 
 
@@ -91,7 +96,13 @@ def run_default(ctx: C.Ctx):
                 'thorough: denser) × special attributes tag / recursive on the root × nesting shape (direct, Optional, list, dict value, '
                 'tuple, two levels, list of Optional) × root declared with an inner Meta or with LoadMeta/DumpMeta-style bind_to × nested '
                 'with inner Meta / bound Meta / none: dump of the nested part vs the documented effective(m_n, m_r, recursive) encoding, '
-                'unknown-key policy on load, and both vs the Lean model. Non-trivial = distinct (m_r, m_n, recursive, shape).')
+                'unknown-key policy on load, and both vs the Lean model; root Meta declared with the class or bound in two steps (DumpMeta / '
+                'LoadMeta) in four orders around the first dump and the first load. LOAD-KEY FAMILY: root / nested key_transform_with_load in '
+                '{unset, CAMEL, PASCAL, SNAKE, LISP, NONE} × raise_on_unknown_json_key × recursive × shape × nested field names in snake / camel / '
+                'Pascal style × document keys in snake / camel / Pascal / lisp / upper / exact style × history of the root (Meta declared / LoadMeta '
+                'bound late / root dumped under a DumpMeta of its own before the load settings are bound): the nested part loaded through the root must '
+                'give what a twin class declaring the documented effective Meta itself gives for that part (values or kind of rejection). '
+                'Non-trivial = distinct (m_r, m_n, recursive, shape).')
     n = ctx.quick(500, 6000)
     reqs, pend = [], []
     dreqs, dpend = [], []
@@ -116,12 +127,28 @@ def run_default(ctx: C.Ctx):
         ncls = nested_cls(m_n, nwiz)
         root = {'k': 'cls', 'info': {'name': model.fresh('R'), 'fields': [{'name': 'nested_fld'}], 'wizard': rwiz, 'meta': m_r or None},
                 'ftys': [['nested_fld', wrap(shape, ncls, rng)]]}
+        # ---- binding history of the root's Meta: declared with the class (inner Meta / one bind_to, as rendered by the class model), or
+        # bound in two steps — DumpMeta(dump settings) and LoadMeta(load settings), the settings that matter on both sides going with the
+        # first step — in one of the orders  A: D L dump load   B: D dump L load   C: L load D dump   D: L D load dump.
+        # Every setting is bound before the first operation it governs, so the documented outcome is that of the declared Meta.
+        binding = rng.choice(['declared', 'declared', 'declared', 'A', 'B', 'B', 'C', 'D']) if m_r else 'declared'
+        if binding == 'B' and m_r.get('auto_assign_tags') and shape == 'two-levels':
+            # unchanged-code finding (findings/dump-first-auto-tags-stale-nested-loaders.md): a dump of a root with auto_assign_tags caches the
+            # field parsers of the intermediate class, so load settings bound afterwards never reach a class two levels down
+            binding = 'A'
+        src_root = root
+        if binding != 'declared':
+            src_root = copy.deepcopy(root)
+            src_root['info']['meta'] = None
         try:
-            built = model.Built(root)
+            built = model.Built(src_root)
         except Exception as e:
             ctx.count('build_error')
             ctx.notes.setdefault('build_errors', []).append(repr(e)[:300])
             continue
+        if binding != 'declared':
+            built.infos = {}
+            model._collect_infos(root, built.infos)       # the reference side sees the Meta the steps add up to
         try:
             N = built.get(ncls['info']['name'])
             nv = N(when_at=dt.datetime(2021, 3, 4, 5, 6, 7, tzinfo=dt.timezone.utc), opt_val=rng.choice([None, 'x']), num_count=rng.choice([0, 3]))
@@ -132,53 +159,98 @@ def run_default(ctx: C.Ctx):
             x = built.root(nested_fld=inner)
             if not ctx.begin_case(i):
                 continue
-            case = {'ty': root, 'shape': shape}
+            case = {'ty': root, 'shape': shape, 'binding': binding}
             ctx.seen('cascade:' + shape, case)
+            if binding != 'declared':
+                ctx.count('binding:' + binding)
             src = dict(src=built.source)
-            # ---- dump side
-            try:
-                d = asdict(x)
-            except Exception as e:
-                ctx.fail('cascade:dump', case, f'asdict raised {e!r}', detail=src)
-                continue
             exp = ref.RefEncoder(built.infos).enc_inst(x, None, None, None, top=True)
-            if not ref.same_typed(d, exp):
-                gn, en = None, None
+            state = {'d': None}
+
+            def bind(part, first):
+                keys = DUMP_KEYS if part == 'D' else LOAD_KEYS
+                kw = {k: v for k, v in m_r.items() if k in keys or (first and k in BOTH_KEYS)}
+                if not kw:
+                    return
+                for ck in ('skip_if', 'skip_defaults_if'):
+                    if ck in kw:
+                        kw[ck] = eval(model.cond_src(kw[ck]), built.mod.__dict__)
+                getattr(built.mod, 'DumpMeta' if part == 'D' else 'LoadMeta')(**kw).bind_to(built.root)
+                src['src'] += f"\n{'DumpMeta' if part == 'D' else 'LoadMeta'}(**{kw!r}).bind_to({root['info']['name']})"
+
+            def do_dump():
+                # ---- dump side
                 try:
-                    gn, en = find_nested(d, shape), find_nested(exp, shape)
+                    d = asdict(x)
+                except Exception as e:
+                    ctx.fail('cascade:dump', case, f'asdict raised {e!r}', detail=src)
+                    return
+                src['src'] += '\nasdict(x)'
+                state['d'] = d
+                if not ref.same_typed(d, exp):
+                    gn, en = None, None
+                    try:
+                        gn, en = find_nested(d, shape), find_nested(exp, shape)
+                    except Exception:
+                        pass
+                    ctx.fail('cascade:dump', case, f'nested part dumped as {gn!r}, documented effective Meta gives {en!r} (whole: {d!r} vs {exp!r})'[:1200], detail=src)
+                st = model.StdTables()
+                st.add_py(x)
+                dreqs.append({'op': 'dump', 'inst': model.enc_py(x, built), 'std': st.build(), 'exclude': None, 'skip_defaults': None})
+                dpend.append((case, {'ok': model.enc_d(d)}))
+
+            def do_load():
+                # ---- load side: the dumped document (the documented dump when the load comes first) with an unknown key inside the nested
+                # object, spelled per the *effective* dump keys
+                d = state['d'] if state['d'] is not None else exp
+                base_ok = load_outcome(lambda: fromdict(built.root, json.loads(json.dumps(d))))[0] == 'ok'
+                src['src'] += '\nfromdict(Root, ...)'
+                if not base_ok:
+                    # the dump keys do not reach the fields under the load transform in force: spell the document with the field names
+                    # themselves (always accepted) so that the load side of the case is not lost
+                    ctx.count('dump_not_loadable_under_load_transform')
+                    try:
+                        d = plain_doc(x, root, built)
+                        base_ok = load_outcome(lambda: fromdict(built.root, json.loads(json.dumps(d))))[0] == 'ok'
+                    except Exception:
+                        base_ok = False
+                    if not base_ok:
+                        ctx.count('field_name_doc_not_loadable')
+                jd = json.loads(json.dumps(d)) if base_ok else None
+                try:
+                    tgt = find_nested(jd, shape)
                 except Exception:
-                    pass
-                ctx.fail('cascade:dump', case, f'nested part dumped as {gn!r}, documented effective Meta gives {en!r} (whole: {d!r} vs {exp!r})'[:1200], detail=src)
-            st = model.StdTables()
-            st.add_py(x)
-            dreqs.append({'op': 'dump', 'inst': model.enc_py(x, built), 'std': st.build(), 'exclude': None, 'skip_defaults': None})
-            dpend.append((case, {'ok': model.enc_d(d)}))
-            # ---- load side: the dumped document with an unknown key inside the nested object, spelled per the *effective* dump keys
-            jd = json.loads(json.dumps(d))
-            try:
-                tgt = find_nested(jd, shape)
-            except Exception:
-                tgt = None
-            base_ok = load_outcome(lambda: fromdict(built.root, json.loads(json.dumps(d))))[0] == 'ok'
-            if not base_ok:
-                ctx.count('dump_not_loadable_under_load_transform')
-            if isinstance(tgt, dict) and base_ok:
-                tgt['zzz_unknown'] = 1
-                out = load_outcome(lambda: fromdict(built.root, copy.deepcopy(jd)))
-                own = model.own_meta(ncls['info'])
-                cfg = ref.root_config(model.own_meta(root['info']))
-                eff = ref.effective_meta(own, cfg)
-                want_raise = bool(eff.get('raise_on_unknown_json_key'))
-                if want_raise and not (out[0] == 'err' and isinstance(out[1], UnknownKeysError)):
-                    ctx.fail('cascade:load-unknown', case, f'effective raise_on_unknown_json_key is True for the nested class, but the load gave {out!r}'[:600], detail=src)
-                if not want_raise and out[0] == 'err' and isinstance(out[1], UnknownKeysError) and out[1].class_name == ncls['info']['name']:
-                    ctx.fail('cascade:load-unknown', case, 'effective raise_on_unknown_json_key is not set for the nested class, but its unknown key was rejected', detail=src)
-                st2 = model.StdTables()
-                st2.add_json(jd)
-                reqs.append({'op': 'load', 'ty': model.enc_ty(root), 'doc': model.enc_j(jd), 'std': st2.build()})
-                pend.append((case, out, built))
+                    tgt = None
+                if isinstance(tgt, dict) and base_ok:
+                    tgt['zzz_unknown'] = 1
+                    out = load_outcome(lambda: fromdict(built.root, copy.deepcopy(jd)))
+                    own = model.own_meta(ncls['info'])
+                    cfg = ref.root_config(model.own_meta(root['info']))
+                    eff = ref.effective_meta(own, cfg)
+                    want_raise = bool(eff.get('raise_on_unknown_json_key'))
+                    if want_raise and not (out[0] == 'err' and isinstance(out[1], UnknownKeysError)):
+                        ctx.fail('cascade:load-unknown', case, f'effective raise_on_unknown_json_key is True for the nested class, but the load gave {out!r}'[:600], detail=src)
+                    if not want_raise and out[0] == 'err' and isinstance(out[1], UnknownKeysError) and out[1].class_name == ncls['info']['name']:
+                        ctx.fail('cascade:load-unknown', case, 'effective raise_on_unknown_json_key is not set for the nested class, but its unknown key was rejected', detail=src)
+                    st2 = model.StdTables()
+                    st2.add_json(jd)
+                    reqs.append({'op': 'load', 'ty': model.enc_ty(root), 'doc': model.enc_j(jd), 'std': st2.build()})
+                    pend.append((case, out, built))
+
+            steps = {'declared': ['dump', 'load'], 'A': ['D', 'L', 'dump', 'load'], 'B': ['D', 'dump', 'L', 'load'],
+                     'C': ['L', 'load', 'D', 'dump'], 'D': ['L', 'D', 'load', 'dump']}[binding]
+            first = True
+            for step in steps:
+                if step in ('D', 'L'):
+                    bind(step, first)
+                    first = False
+                elif step == 'dump':
+                    do_dump()
+                else:
+                    do_load()
         finally:
             built.close()
+    run_loadkeys(ctx, n, reqs, pend)
     if ctx.model_available:
         outs = ctx.driver.run(dreqs)
         for (case, impl), o in zip(dpend, outs):
@@ -193,6 +265,176 @@ def run_default(ctx: C.Ctx):
         outs = ctx.driver.run(reqs)
         for (case, out, built), o_ in zip(pend, outs):
             compare_load(ctx, 'cascade:load-model', case, out, o_, built)
+
+
+# --------------------------------------------------------------------------- load-side cascade, judged against a twin class
+#
+# "observed behaviour of the nested part == behaviour under effective(m_n, m_r, recursive)" taken literally: next to the nested class N the
+# case declares a twin N2 with the same fields whose OWN Meta is the documented effective Meta of N below this root, and loads the nested
+# part of the document with fromdict(N2, part).  Whatever that gives (the values, or the kind of rejection) is what the nested part must
+# give when the whole document is loaded through the root.  This needs no reference for the key transforms themselves, so field names and
+# document keys may be spelled in any style — in particular in styles that reach their field only *after* the effective transform.
+
+WORDS = [('when', 'at'), ('opt', 'val'), ('num', 'count')]
+STYLERS = {
+    'snake': lambda ws: '_'.join(ws),
+    'camel': lambda ws: ws[0] + ''.join(w.title() for w in ws[1:]),
+    'pascal': lambda ws: ''.join(w.title() for w in ws),
+    'lisp': lambda ws: '-'.join(ws),
+    'upper': lambda ws: '_'.join(ws).upper(),
+}
+LOAD_TRANSFORMS = ['CAMEL', 'PASCAL', 'SNAKE', 'LISP', 'NONE']
+
+
+def pick_load_meta(rng, p_unset):
+    m = {}
+    if rng.random() >= p_unset:
+        m['key_transform_with_load'] = rng.choice(LOAD_TRANSFORMS)
+    if rng.random() < 0.3:
+        m['raise_on_unknown_json_key'] = rng.choice([True, True, False])
+    return m
+
+
+def loadkeys_case(rng):
+    fstyle = rng.choice(['snake', 'camel', 'camel', 'pascal'])
+    names = [STYLERS[fstyle](ws) for ws in WORDS]
+    m_r = pick_load_meta(rng, 0.25)
+    recursive = rng.choice([None, None, None, True, False])
+    if recursive is not None:
+        m_r['recursive'] = recursive
+    m_n = pick_load_meta(rng, 0.5) if rng.random() < 0.4 else None
+    shape = rng.choice(SHAPES)
+
+    def ncls(name, meta, wizard):
+        fields = [{'name': names[0]}, {'name': names[1], 'dflt': ['lit', None], 'factory': False}, {'name': names[2], 'dflt': ['lit', 0], 'factory': False}]
+        ftys = [[names[0], T('int')], [names[1], T('optional', T('str'))], [names[2], T('int')]]
+        return {'k': 'cls', 'info': {'name': name, 'fields': fields, 'wizard': wizard, 'meta': meta}, 'ftys': ftys}
+    n = ncls(model.fresh('N'), m_n, rng.random() < 0.5)
+    own = model.own_meta(n['info'])
+    eff = ref.effective_meta(own, ref.root_config(m_r))
+    m_t = {k: eff[k] for k in ('key_transform_with_load', 'raise_on_unknown_json_key') if k in eff}
+    twin = ncls(model.fresh('Twin'), m_t or None, rng.random() < 0.5)
+    root = {'k': 'cls', 'info': {'name': model.fresh('R'), 'fields': [{'name': 'nested_fld'}], 'wizard': rng.random() < 0.5, 'meta': m_r or None},
+            'ftys': [['nested_fld', wrap(shape, n, rng)]]}
+    # history of the root before its first load: Meta declared with the class; or bound late (LoadMeta just before the first load); or the
+    # root is first DUMPED under a DumpMeta of its own (auto_assign_tags / dump key transform) and only then gets its load settings
+    history = rng.choice(['declared', 'declared', 'bound-late', 'dump-first', 'dump-first']) if m_r else 'declared'
+    dump_kw = {}
+    if history == 'dump-first':
+        if rng.random() < 0.65:
+            dump_kw['auto_assign_tags'] = True
+        if rng.random() < 0.4:
+            dump_kw['key_transform_with_dump'] = rng.choice(['SNAKE', 'PASCAL', 'NONE'])
+        if 'recursive' in m_r:
+            dump_kw['recursive'] = m_r['recursive']
+        if dump_kw.get('auto_assign_tags') and shape == 'two-levels':
+            # unchanged-code finding, see findings/dump-first-auto-tags-stale-nested-loaders.md
+            history, dump_kw = 'bound-late', {}
+    docs = []
+    for kstyle in rng.sample(['snake', 'camel', 'pascal', 'lisp', 'upper', 'exact'], 3):
+        keys = names if kstyle == 'exact' else [STYLERS[kstyle](ws) for ws in WORDS]
+        part = {keys[0]: rng.choice([1, 7])}
+        if rng.random() < 0.7:
+            part[keys[1]] = rng.choice(['x', None])
+        if rng.random() < 0.7:
+            part[keys[2]] = rng.choice([0, 4])
+        if rng.random() < 0.25:
+            part['zzz_unknown'] = 1
+        docs.append((kstyle, part))
+    return root, n, twin, shape, fstyle, eff, docs, history, dump_kw
+
+
+def shape_doc(shape, part):
+    return {'nested_fld': {'direct': part, 'optional': part, 'list': [part], 'dictval': {'k': part}, 'tuple': [1, part],
+                           'list-of-optional': [part, None], 'two-levels': [{'deep_one': part}]}[shape]}
+
+
+def shape_get(shape, y):
+    v = y.nested_fld
+    return {'direct': lambda: v, 'optional': lambda: v, 'list': lambda: v[0], 'dictval': lambda: v['k'], 'tuple': lambda: v[1],
+            'list-of-optional': lambda: v[0], 'two-levels': lambda: v[0].deep_one}[shape]()
+
+
+def outcome_kind(out, names):
+    """what a load did to the nested part, in terms that do not mention the class: the field values, or the kind of rejection"""
+    from dataclass_wizard.errors import UnknownKeysError, MissingFields
+    if out[0] == 'ok':
+        return ['ok'] + [[type(getattr(out[1], n)).__name__, repr(getattr(out[1], n))] for n in names]
+    e = out[1]
+    if isinstance(e, UnknownKeysError):
+        return ['err', 'UnknownKeysError', v1streams.unknown_keys_of(e)]
+    if isinstance(e, MissingFields):
+        return ['err', 'MissingFields', sorted(e.missing_fields)]
+    return ['err', type(e).__name__]
+
+
+def run_loadkeys(ctx, first_index, reqs, pend):
+    from dataclass_wizard import fromdict
+    rng = ctx.rng
+    n = ctx.quick(260, 3000)
+    for j in range(n):
+        i = first_index + j
+        if ctx.done(i):
+            break
+        root, ncls, twin, shape, fstyle, eff, docs, history, dump_kw = loadkeys_case(rng)
+        src_root = root
+        if history != 'declared':
+            src_root = copy.deepcopy(root)
+            src_root['info']['meta'] = None
+        try:
+            built = model.Built(src_root)
+            built_t = model.Built(twin)
+        except Exception as e:
+            ctx.count('build_error')
+            ctx.notes.setdefault('build_errors', []).append(repr(e)[:300])
+            continue
+        try:
+            if not ctx.begin_case(i):
+                continue
+            names = [f['name'] for f in ncls['info']['fields']]
+            src = dict(src=built.source + '\n# ---- twin\n' + built_t.source.replace(model.PRELUDE, ''))
+            if history != 'declared':
+                ctx.count('loadkeys:history:' + history)
+                m_r = root['info']['meta']
+                rname = root['info']['name']
+                if history == 'dump-first':
+                    from dataclass_wizard import asdict
+                    nv = built.get(ncls['info']['name'])(**{names[0]: 1})
+                    inner = {'direct': nv, 'optional': nv, 'list': [nv], 'dictval': {'k': nv}, 'tuple': (1, nv), 'list-of-optional': [nv, None]}.get(shape)
+                    if shape == 'two-levels':
+                        inner = [built.get(root['ftys'][0][1]['a'][0]['info']['name'])(deep_one=nv)]
+                    if dump_kw:
+                        built.mod.DumpMeta(**dump_kw).bind_to(built.root)
+                        src['src'] += f'\nDumpMeta(**{dump_kw!r}).bind_to({rname})'
+                    try:
+                        asdict(built.root(nested_fld=inner))
+                    except Exception as e:
+                        ctx.fail('cascade:loadkeys', {'ty': root, 'shape': shape, 'history': history}, f'asdict of the root raised {e!r}', detail=src)
+                    src['src'] += f'\nasdict({rname}(...))'
+                load_kw = {k: v for k, v in m_r.items() if k not in dump_kw}
+                if load_kw:
+                    built.mod.LoadMeta(**load_kw).bind_to(built.root)
+                    src['src'] += f'\nLoadMeta(**{load_kw!r}).bind_to({rname})'
+            for kstyle, part in docs:
+                doc = shape_doc(shape, part)
+                case = {'ty': root, 'shape': shape, 'field_style': fstyle, 'key_style': kstyle, 'doc': repr(doc), 'effective': eff,
+                        'twin': twin['info']['name'], 'history': history, 'dump_meta': dump_kw}
+                ctx.seen('cascade:loadkeys:' + shape, case)
+                want = load_outcome(lambda: fromdict(built_t.root, copy.deepcopy(part)))
+                out = load_outcome(lambda: fromdict(built.root, copy.deepcopy(doc)))
+                got = out if out[0] == 'err' else load_outcome(lambda: shape_get(shape, out[1]))
+                kw, kg = outcome_kind(want, names), outcome_kind(got, names)
+                ctx.count('loadkeys:' + ('accepted' if kw[0] == 'ok' else 'rejected'))
+                if kw != kg:
+                    ctx.fail('cascade:loadkeys', case, f'nested part {part!r} (keys in {kstyle} style, fields in {fstyle} style) loaded through the root gives '
+                             f'{kg!r}; a class declaring the documented effective Meta {eff!r} itself gives {kw!r}'[:1200], detail=src)
+                st = model.StdTables()
+                st.add_json(doc)
+                reqs.append({'op': 'load', 'ty': model.enc_ty(root), 'doc': model.enc_j(doc), 'std': st.build()})
+                pend.append((case, out, built))
+        finally:
+            built.close()
+            built_t.close()
 
 
 # --------------------------------------------------------------------------- v1 engine
@@ -236,7 +478,11 @@ def run_v1(ctx: C.Ctx):
                 'on the root, each link one of direct / Optional / list / dict value / tuple; the document is spelled per class with the key case of '
                 'effective(own, ROOT) and carries one unknown key at the root, mid or leaf level (or none): the load must accept / reject per '
                 'the effective policy of exactly that class (settings an intermediate class sets for itself never reach the leaf) and rebuild the '
-                'values; also vs the Lean model of the v1 engine. Non-trivial = distinct (metas, recursive, links, site).')
+                'values; also vs the Lean model of the v1 engine. UNION FAMILY: a class holding Union[X, Y] of dataclasses (tagged or not) one or two '
+                'levels below a root Meta over {tag_key, auto_assign_tags, v1_unsafe_parse_dataclass_in_union} × recursive in {unset, True, False}, '
+                'documents tagged under `__tag__` / `type` / `kind` / untagged with own tag / class name / a wrong tag: the nested class must behave '
+                'like a twin class that declares the documented effective settings itself and is loaded on its own. '
+                'Non-trivial = distinct (metas, recursive, links, site).')
     n = ctx.quick(450, 5000)
     reqs, pend = [], []
     for j in range(n):
@@ -333,7 +579,130 @@ def run_v1(ctx: C.Ctx):
             pend.append((case, out, built))
         finally:
             built.close()
+    run_v1_unions(ctx, rng, n, reqs, pend)
     if ctx.model_available:
         outs = ctx.driver.run(reqs)
         for (case, out, built), o_ in zip(pend, outs):
             compare_load(ctx, 'cascade:v1:load-model', case, out, o_, built)
+
+
+# --------------------------------------------------------------------------- v1: settings read by the type hooks of a nested class
+#
+# tag_key, auto_assign_tags and v1_unsafe_parse_dataclass_in_union are not consumed by the class function itself but by the code generated
+# for a Union field *inside* the class.  The family nests a class H holding `u: Union[X, Y]` (X, Y dataclasses, with or without tags of
+# their own) one or two levels below a root whose Meta sets some of the three, with recursive in {unset, True, False}, and judges the
+# nested H against a twin class W declaring the documented effective(own, ROOT) settings as its own Meta and loaded on its own (the
+# twin lives in a module of its own with identically named member classes, because an auto-assigned tag is the member's __name__).
+
+UNION_KEYS = ['tag_key', 'auto_assign_tags', 'v1_unsafe_parse_dataclass_in_union']
+
+
+def pick_union_meta(rng, p=(0.5, 0.35, 0.25)):
+    m = {}
+    if rng.random() < p[0]:
+        m['tag_key'] = rng.choice(['type', 'kind'])
+    if rng.random() < p[1]:
+        m['auto_assign_tags'] = True
+    if rng.random() < p[2]:
+        m['v1_unsafe_parse_dataclass_in_union'] = True
+    return m
+
+
+def unlink(link, v):
+    return v if link in ('direct', 'optional') else v[0] if link == 'list' else v['k'] if link == 'dictval' else v[1]
+
+
+def union_outcome(out, get):
+    if out[0] == 'ok':
+        try:
+            h = get(out[1])
+            u = h.u
+            return ['ok', type(u).__name__, sorted((k, repr(v)) for k, v in vars(u).items()), h.leaf_val]
+        except Exception as e:
+            return ['ok?', repr(e)]
+    return ['err', type(out[1]).__name__]
+
+
+def run_v1_unions(ctx, rng, first_j, reqs, pend):
+    from dataclass_wizard import fromdict
+    n = ctx.quick(200, 2500)
+    for jj in range(n):
+        j = first_j + jj
+        i = v1streams.OFFSET + j
+        if ctx.done(i):
+            break
+        nm = v1streams.Namer(j)
+        m_r = pick_union_meta(rng)
+        m_r['v1'] = True
+        recursive = rng.choice([None, None, True, False, False])
+        if recursive is not None:
+            m_r['recursive'] = recursive
+        # H sets none of the three settings itself when it is nested: see findings/v1-nested-own-union-settings-ignored.md
+        m_h = {'v1': True} if rng.random() < 0.3 else None
+        m_mid = dict(pick_union_meta(rng), v1=True) if rng.random() < 0.4 else None     # an intermediate class's settings never reach H
+        tagged = rng.random() < 0.6
+
+        def member(prefix, fname, tag):
+            return {'k': 'cls', 'info': {'name': nm(prefix), 'fields': [{'name': fname}], 'wizard': False, 'meta': {'tag': tag} if tagged else None},
+                    'ftys': [[fname, T('int')]]}
+        X, Y = member('X', 'a', 'x'), member('Y', 'b', 'y')
+        if rng.random() < 0.5:
+            X, Y = Y, X
+        hold = {'k': 'cls', 'info': {'name': nm('H'), 'fields': [{'name': 'u'}, {'name': 'leaf_val', 'dflt': ['lit', 0], 'factory': False}],
+                                     'wizard': rng.random() < 0.5, 'meta': m_h},
+                'ftys': [['u', T('union', X, Y)], ['leaf_val', T('int')]]}
+        eff = v1streams.effective(m_h, m_r)
+        twin = copy.deepcopy(hold)
+        twin['info'].update(name=nm('W'), wizard=False, meta=dict({k: eff[k] for k in UNION_KEYS if k in eff}, v1=True))
+        three = rng.random() < 0.5
+        l1, l2 = rng.choice(LINKS), rng.choice(LINKS)
+        below = hold
+        if three:
+            below = {'k': 'cls', 'info': {'name': nm('M'), 'fields': [{'name': 'the_leaf'}], 'wizard': rng.random() < 0.5, 'meta': m_mid},
+                     'ftys': [['the_leaf', link_ty(l2, hold)]]}
+        root = {'k': 'cls', 'info': {'name': nm('R'), 'fields': [{'name': 'the_child'}], 'wizard': rng.random() < 0.5, 'meta': m_r},
+                'ftys': [['the_child', link_ty(l1, below)]]}
+        docs = []
+        for _ in range(3):
+            mem = rng.choice([X, Y])
+            ud = {mem['info']['fields'][0]['name']: rng.choice([1, 5])}
+            tk = rng.choice(['__tag__', '__tag__', 'type', 'kind', None])
+            if tk is not None:
+                tv = rng.choice([mem['info']['meta']['tag'] if tagged else mem['info']['name'], mem['info']['name'], 'nope'])
+                ud = dict([(tk, tv)] + list(ud.items())) if rng.random() < 0.5 else dict(list(ud.items()) + [(tk, tv)])
+            docs.append({'u': ud, 'leaf_val': rng.choice([0, 3])})
+        try:
+            built = model.Built(root)
+            built_t = model.Built(twin)
+        except Exception as e:
+            ctx.count('build_error')
+            ctx.notes.setdefault('build_errors', []).append(repr(e)[:300])
+            continue
+        try:
+            if not ctx.begin_case(i):
+                continue
+            src = dict(src=built.source + '\n# ---- twin (module of its own)\n' + built_t.source.replace(model.PRELUDE, ''))
+
+            def get(y):
+                v = y.the_child
+                v = unlink(l1, v)
+                if three:
+                    v = v.the_leaf
+                    v = unlink(l2, v)
+                return v
+            for hd in docs:
+                doc = {'the_child': link_doc(l1, {'the_leaf': link_doc(l2, hd)} if three else hd)}
+                doc = json.loads(json.dumps(doc))
+                case = {'ty': root, 'doc': repr(doc)[:500], 'links': [l1, l2] if three else [l1], 'engine': 'v1', 'effective': eff,
+                        'twin': twin['info']['name'], 'members_tagged': tagged}
+                ctx.seen('cascade:v1:union:' + ('3' if three else '2'), case)
+                want = load_outcome(lambda: fromdict(built_t.root, copy.deepcopy(hd)))
+                out = load_outcome(lambda: fromdict(built.root, copy.deepcopy(doc)))
+                kw, kg = union_outcome(want, lambda y: y), union_outcome(out, get)
+                ctx.count('v1:union:' + kw[0])
+                if kw != kg:
+                    ctx.fail('cascade:v1:union', case, f'the nested class with the Union field, given {hd!r}, behaves as {kg!r} below this root; a class declaring the '
+                             f'documented effective settings {eff!r} itself behaves as {kw!r} (root Meta {m_r!r}, own Meta {m_h!r})'[:1200], detail=src)
+        finally:
+            built.close()
+            built_t.close()
